@@ -145,6 +145,8 @@ class EncEval:
             if isinstance(e, dict) and "f" in e:
                 if v[0] == "some" and e["f"] == 0:
                     v = ("cell", v[1])
+                elif v[0] == "somei" and e["f"] == 0:
+                    v = ("tuple", [("pos", v[2]), ("cell", v[1])])        # item of char_indices(): (byte position, character)
                 elif v[0] == "tuple":
                     v = v[1][e["f"]] if e["f"] < len(v[1]) else UNK
                 elif v[0] == "cow":
@@ -211,6 +213,8 @@ class EncEval:
         loop = None                     # active loop: dict(header, queue, cur, items, emitted)
         whole_arg = False
         argmap = None                   # per-class image after `replace` calls on the whole argument
+        tape = None                     # copy-the-runs form: ordered output events with positions, resolved at the end
+        self.tape_cells = []            # class of the k-th character of the indexed walk
 
         def lits_of(v):
             if v[0] == "strconst":
@@ -222,6 +226,17 @@ class EncEval:
 
         def emit(item):
             nonlocal whole_arg
+            if tape is not None:
+                in_iter = loop is not None and loop.get("indexed") and loop["cur"] is not None
+                if item == ("arg",):
+                    raise EncOpaque("the whole argument is written while its characters are copied by position")
+                if item == ("cell",):
+                    if not in_iter:
+                        raise EncOpaque("a character is written outside the iteration that produced it")
+                    tape.append(("char", loop["k"]))
+                else:
+                    tape.append(("lit", item[1], loop["k"] if in_iter else "after"))
+                return
             if loop is not None and loop["cur"] is not None:
                 loop["items"].append(item)
                 loop["emitted"] = True
@@ -257,7 +272,7 @@ class EncEval:
                     raise EncOpaque("diverging %s" % k)
                 bb = t["target"]
             elif k == "return":
-                if loop is not None and (loop["emitted"] or loop["cur"] is not None and loop["items"]):
+                if loop is not None and (loop["emitted"] or loop["cur"] is not None and loop["items"] or loop.get("indexed") and tape):
                     raise EncOpaque("the loop that writes the output is left early")
                 r = env.get(0, UNK)
                 if r[0] == "cow":
@@ -266,6 +281,57 @@ class EncEval:
                     if prefix or suffix or per_cell or whole_arg:
                         pass        # a buffer was built and dropped; what is returned is the argument itself
                     return Result("identity", [], {c: (("cell",),) for c in S}, [])
+                if r == OUT and tape is not None:
+                    n = len(self.tape_cells)
+                    seq = []
+                    for ev in tape:
+                        if ev[0] == "run":
+                            a2 = n if ev[1] == "END" else ev[1]
+                            b2 = n if ev[2] == "END" else ev[2]
+                            if not (0 <= a2 <= b2 <= n):
+                                raise EncOpaque("a slice of the argument runs backwards or past the end")
+                            seq.extend(("c", j) for j in range(a2, b2))
+                        elif ev[0] == "char":
+                            seq.append(("c", ev[1]))
+                        else:
+                            seq.append(ev)
+                    if [x[1] for x in seq if x[0] == "c"] != list(range(n)):
+                        raise EncOpaque("the characters of the argument are not copied exactly once and in order (positions %s of %d)"
+                                        % ([x[1] for x in seq if x[0] == "c"][:8], n))
+                    images = {j: [[], []] for j in range(n)}
+                    pending = []
+                    last = None
+                    for x in seq:
+                        if x[0] == "lit":
+                            pending.append(x)
+                            continue
+                        j = x[1]
+                        for l in pending:
+                            if l[2] == j:
+                                images[j][0].append(("lit", l[1]))
+                            elif last is not None and l[2] == last and not images[j][0]:
+                                images[last][1].append(("lit", l[1]))
+                            else:
+                                raise EncOpaque("a literal written while handling one character lands next to another")
+                        pending = []
+                        last = j
+                    for l in pending:
+                        if l[2] == "after":
+                            suffix.append(("lit", l[1]))
+                        elif last is not None and l[2] == last and not any(q[2] == "after" for q in pending[:pending.index(l)]):
+                            images[last][1].append(("lit", l[1]))
+                        else:
+                            raise EncOpaque("a literal written while handling one character lands next to another")
+                    per_cell = {}
+                    for j in range(n):
+                        c = self.tape_cells[j]
+                        img = tuple(images[j][0]) + (("cell",),) + tuple(images[j][1])
+                        if per_cell.get(c, img) != img:
+                            raise EncOpaque("a character is written differently depending on position or history")
+                        per_cell[c] = img
+                    for c in S:
+                        per_cell.setdefault(c, ())
+                    return Result("built", prefix, per_cell, suffix)
                 if r == OUT:
                     if argmap is not None:
                         per_cell = dict(argmap)
@@ -311,7 +377,11 @@ class EncEval:
 
                 if has("Iterator::next") and args and args[0][0] == "chars":
                     handled = True
+                    indexed = len(args[0]) > 2 and args[0][2] == ("indexed",)
                     if loop is None or loop["header"] != bb:
+                        if tape is not None and (loop is None or not loop.get("indexed") or loop["header"] != bb):
+                            if tape or self.tape_cells:
+                                raise EncOpaque("another loop over the argument after the one that copies by position")
                         if loop is not None:
                             if loop["emitted"]:
                                 raise EncOpaque("nested or interleaved loops over the argument")
@@ -323,6 +393,12 @@ class EncEval:
                         else:
                             cs0 = sorted(self.iter_cells(args[0], S), reverse=descending)
                             loop = {"header": bb, "queue": [c for c in cs0 for _ in (0, 1)], "cur": None, "items": [], "emitted": False}
+                            if indexed:
+                                if any(l[1] for l in loops):
+                                    raise EncOpaque("copy by position after another loop wrote the output")
+                                loop["indexed"] = True
+                                tape = []
+                                self.tape_cells = []
                     if loop["cur"] is not None:
                         got = tuple(loop["items"])
                         if loop["emitted"] or got:
@@ -332,7 +408,13 @@ class EncEval:
                             if old is not None and old != got:
                                 raise EncOpaque("a character is written differently depending on position or history")
                             per_cell[loop["cur"]] = got
-                    if loop["queue"]:
+                    if loop["queue"] and loop.get("indexed"):
+                        loop["cur"] = loop["queue"].pop(0)
+                        loop["items"] = []
+                        loop["k"] = len(self.tape_cells)
+                        self.tape_cells.append(loop["cur"])
+                        res = ("somei", loop["cur"], loop["k"])
+                    elif loop["queue"]:
                         loop["cur"] = loop["queue"].pop(0)
                         loop["items"] = []
                         res = ("some", loop["cur"])
@@ -348,6 +430,25 @@ class EncEval:
                     res = ("bool", any(self.pred_value(args[1], c) for c in S))
                 elif has("<impl str>::chars") and args and args[0] == ARG:
                     handled, res = True, ("chars", ())
+                elif has("<impl str>::char_indices") and args and args[0] == ARG:
+                    handled, res = True, ("chars", (), ("indexed",))
+                elif has("char::methods::<impl char>::len_utf8", "<impl char>::len_utf8") and args and args[0][0] == "cell" and loop is not None and loop.get("indexed"):
+                    handled, res = True, ("clen", loop["k"])
+                elif has("Index::index") and len(args) == 2 and args[0] == ARG and args[1][0] == "range":
+                    handled = True
+
+                    def bnd(v):
+                        if v == "END":
+                            return "END"
+                        if v == ("int", 0):
+                            return 0
+                        if v[0] == "pos":
+                            return v[1]
+                        raise EncOpaque("slice bound is not a position the abstraction tracks")
+                    a2, b2 = bnd(args[1][1]), bnd(args[1][2])
+                    res = ARG if (a2, b2) == (0, "END") and tape is None else ("slice", a2, b2)
+                elif has("Index::index") and len(args) == 2 and args[0] == ARG:
+                    raise EncOpaque("the argument is indexed by something that is not a tracked range")
                 elif has("Iterator::filter") and len(args) == 2 and args[0][0] == "chars":
                     handled, res = True, ("chars", args[0][1] + (args[1],))
                 elif has("Iterator::count") and args and args[0][0] == "chars":
@@ -378,6 +479,10 @@ class EncEval:
                     v = args[1]
                     if v == ARG:
                         emit(("arg",))
+                    elif v[0] == "slice":
+                        if tape is None:
+                            raise EncOpaque("a slice of the argument is written without a walk over its positions")
+                        tape.append(("run", v[1], v[2]))
                     elif v[0] == "strconst" and isinstance(v[1], (bytes, str)):
                         for ch in (v[1].decode("utf-8", "replace") if isinstance(v[1], bytes) else v[1]):
                             emit(("lit", ord(ch)))
@@ -466,7 +571,7 @@ class EncEval:
                 elif names & set(OWNING) and args and args[0] == ARG:
                     handled, res = True, OUT
                     emit(("arg",))
-                elif has(*PASS_THROUGH) and args and args[0][0] in ("set", "arg", "out", "cow", "chars", "closure", "fnitem", "opt", "seq"):
+                elif has(*PASS_THROUGH) and args and args[0][0] in ("set", "arg", "out", "cow", "chars", "closure", "fnitem", "opt", "seq", "slice"):
                     handled, res = True, args[0]
                 else:
                     tgt = None
@@ -514,6 +619,18 @@ class EncEval:
                 return ("cow", self.read_op(env, rv["ops"][0]))
             if rv.get("agg") == "tuple":
                 return ("tuple", [self.read_op(env, o) for o in rv["ops"]])
+            an = norm(rv.get("adt_name") or "")
+            if rv.get("agg") == "adt" and an.startswith("core::ops::range::Range"):
+                ops = [self.read_op(env, o) for o in rv["ops"]]
+                if an.endswith("::RangeFull"):
+                    return ("range", ("int", 0), "END")
+                if an.endswith("::Range") and len(ops) == 2:
+                    return ("range", ops[0], ops[1])
+                if an.endswith("::RangeFrom") and len(ops) == 1:
+                    return ("range", ops[0], "END")
+                if an.endswith("::RangeTo") and len(ops) == 1:
+                    return ("range", ("int", 0), ops[0])
+                return UNK
             if rv.get("agg") == "adt" and norm(rv.get("adt_name") or "").endswith("option::Option"):
                 if rv.get("variant") == "Some" and len(rv["ops"]) == 1:
                     return ("opt", self.read_op(env, rv["ops"][0]))
@@ -527,7 +644,7 @@ class EncEval:
             return UNK
         if k == "discr":
             v = self.read_place(env, rv["place"])
-            if v[0] == "some":
+            if v[0] in ("some", "somei"):
                 return ("int", 1)
             if v[0] == "none":
                 return ("int", 0)
@@ -541,6 +658,17 @@ class EncEval:
             a = self.read_op(env, rv["a"])
             b = self.read_op(env, rv["b"])
             op = rv["op"]
+            if op.startswith("Add") and {a[0], b[0]} == {"pos", "clen"}:
+                pv, cv = (a, b) if a[0] == "pos" else (b, a)
+                r = ("pos", pv[1] + 1) if cv[1] == pv[1] else UNK       # position of a character + its own length = the next boundary
+                return ("tuple", [r, ("bool", False)]) if op.endswith("WithOverflow") else r
+            if op.startswith("Add") and {a[0], b[0]} == {"pos", "int"} and ("int", 1) in (a, b):
+                pv = a if a[0] == "pos" else b
+                cell = self.tape_cells[pv[1]] if pv[1] < len(getattr(self, "tape_cells", [])) else None
+                if cell is None or cell[1] >= 0x80:
+                    raise EncOpaque("a byte position is advanced by 1 over a character that may be longer than one byte")
+                r = ("pos", pv[1] + 1)
+                return ("tuple", [r, ("bool", False)]) if op.endswith("WithOverflow") else r
             if op.endswith("WithOverflow"):
                 return ("tuple", [UNK, ("bool", False)])
             import operator
